@@ -101,12 +101,16 @@ CompileOf(pr) ==
                 \o (IF pr.opt = "ev" THEN <<Var("v[1]", "alg_states", "float", NoAttrs), Var("v[2]", "alg_states", "float", NoAttrs)>>
                                      ELSE <<Var("v", "alg_states", "float", NoAttrs)>>)
                 \o (IF pr.out THEN <<Var("o", "alg_states", "float", NoAttrs)>> ELSE <<>>)
-                \o [i \in 1..nd |-> Var(IF i = 1 THEN "d1" ELSE "d2", "alg_states", "float", NoAttrs)]
-        inputs == <<Var("u", "inputs", "float", [NoAttrs EXCEPT ![2] = PDep("min")])>>
+                \o (IF pr.opt = "aliases" THEN <<>>        \* d_i = delay(...) is an alias of the delay input and is eliminated
+                    ELSE [i \in 1..nd |-> Var(IF i = 1 THEN "d1" ELSE "d2", "alg_states", "float", NoAttrs)])
+        dname(i) == (IF i = 1 THEN "_pymoca_delay_0" ELSE "_pymoca_delay_1") \o (IF pr.opt = "ev" THEN "[1,1]" ELSE "")
+        inputs == [i \in 1..nd |-> Var(dname(i), "inputs", "float", NoAttrs)]      \* one input per delay(...) expression
+                  \o <<Var("u", "inputs", "float", [NoAttrs EXCEPT ![2] = PDep("min")])>>
+        consts == IF pr.opt = "rcv" THEN <<>> ELSE <<Var("c", "constants", "float", NoAttrs)>>
         params == <<Var("p", "parameters", "float", NoAttrs),
                     Var("q", "parameters", "float", [NoAttrs EXCEPT ![3] = PDep("max")])>>
                   \o (IF pr.typed THEN <<Var("n", "parameters", "int", NoAttrs), Var("bb", "parameters", "bool", NoAttrs)>> ELSE <<>>)
-    IN  [vars |-> states \o algs \o inputs \o params,
+    IN  [vars |-> states \o algs \o inputs \o params \o consts,
          outputs |-> IF pr.out THEN <<"o">> ELSE <<>>,
          ndelay |-> nd,
          durations |-> DurationsOf(pr.delay),
